@@ -251,6 +251,13 @@ def commands_for(b, seed, per_method):
                     res = e2e.gen_value(b.schema, m["result"], rng, "body")
                     if res is None:
                         continue
+                    # a result attribute of type Any carried in a response header or cookie travels as text
+                    if isinstance(res, dict):
+                        for r0 in (m.get("http") or {}).get("responses") or []:
+                            for mp in (r0.get("headers") or []) + (r0.get("cookies") or []):
+                                fa = dict(b.schema.fields(m["result"])).get(mp["attr"])
+                                if fa and (b.schema.resolve(fa).get("type") or {}).get("prim") == "Any" and mp["attr"] in res:
+                                    res[mp["attr"]] = "any text"
                 cmds.append({"op": "call", "service": s["name"], "method": m["name"], "payload": p, "script": {"result": res}})
                 meta.append((s, m))
     return cmds, meta
@@ -289,6 +296,8 @@ def run_shared(c, prop):
     na = 10 if c.tier == "quick" else 40
     c.cov["rule"] += " Then %d designs around primitive alias types with validations (attributes, array elements, map values, own Enum)." % na
     builds += e2e.build_many(c.seed, range(na), lambda i: ["-alias-design"], work)
+    c.cov["rule"] += " Then 8 designs around the type Any (whole payload / result, array element, map value, attribute, query parameter, response header)."
+    builds += e2e.build_many(c.seed, range(8), lambda i: ["-any-design"], work)
     builds += e2e.build_many(c.seed, range(n), lambda i: ["-errors"] if i % 3 == 1 else [], work)
     transport_ops = []
     for b in builds:
